@@ -38,6 +38,7 @@ def _plain_shards(tier, seed):
         out += [{"kind": "dfs", "depth": 11, "a": a, "b": b, "first": f, "pre": pre} for (a, b) in pairs[2:] for f in range(3) for pre in (0, 5, 18, 27)]
         out += [{"kind": "random", "n": 12500, "part": p} for p in range(16)]
         out += [{"kind": "long", "steps": 6000000, "part": p} for p in range(8)]
+    out.append({"kind": "fork"})
     return out
 
 
@@ -106,6 +107,50 @@ def run(shard, rec, tier, seed):
         for _ in range(200):
             h = [rng.randrange(3) for _ in range(shard["depth"] + 7)]
             replay(rec, PS, ss, [("next",) if o == 0 else ("set", "account", shard["a"]) if o == 1 else ("set", "init7", shard["b"]) for o in h], 0)
+    elif shard["kind"] == "fork":
+        # a server that forks a worker per connection: the child process carries on with the sequencer it inherited,
+        # exactly where the parent was
+        import json
+        import os
+
+        for k in (0, 1, 3, 7, 9, 10, 14, 25):
+            seq = PS(ss.AccountReplySequenceStart.from_value(150))
+            pre = [seq.next_sequence() for _ in range(k)]
+            rd, wr = os.pipe()
+            pid = os.fork()
+            if pid == 0:
+                try:
+                    os.close(rd)
+                    vals = []
+                    for j in range(14):
+                        if j == 6:
+                            seq.set_sequence_start(ss.AccountReplySequenceStart.from_value(33))
+                        vals.append(seq.next_sequence())
+                    os.write(wr, json.dumps(vals).encode())
+                except BaseException as ex:
+                    os.write(wr, json.dumps(["child raised %r" % ex]).encode())
+                finally:
+                    os._exit(0)
+            os.close(wr)
+            data = b""
+            while True:
+                chunk = os.read(rd, 65536)
+                if not chunk:
+                    break
+                data += chunk
+            os.close(rd)
+            os.waitpid(pid, 0)
+            try:
+                got = json.loads(data.decode())
+            except Exception:
+                got = ["unreadable: %r" % data[:80]]
+            want = [(150 if j < 6 else 33) + (k + j) % 10 for j in range(14)]
+            rec.count("forked-children-compared")
+            rec.count("lockstep-next", 14)
+            rec.case(("fork", k))
+            if got != want or pre != [150 + i % 10 for i in range(k)]:
+                rec.violation("lockstep", "after %d requests the process forks; the child's next numbers are %r, the model's %r" % (k, got, want), {"requests_before_fork": k})
+                return
     elif shard["kind"] == "long":
         # "stay in lockstep indefinitely": one sequencer driven for a very long history (past 2^16, 253^2,
         # 10^5 ... requests) with rare updates; every value compared with the counter model
